@@ -124,6 +124,10 @@ func (p *Prog) AccumSeq(read ssa.CallInstruction) (ops []accOp, start string, re
 			if id := p.CalleeID(c.Common()); (id == "bytes.NewBuffer" || id == "bytes.NewBufferString") && len(c.Common().Args) == 1 {
 				ops = append(ops, accOp{c, "Init", c.Common().Args})
 			}
+		} else if prm, isParam := stripConv(recv).(*ssa.Parameter); isParam {
+			// a buffer handed in by the caller: its content at entry is the parameter's term
+			start = "content of parameter " + prm.Name()
+			ops = append(ops, accOp{nil, "Param", []ssa.Value{prm}})
 		} else {
 			return nil, "", "accumulator is neither reset before the read nor a fresh local object"
 		}
